@@ -383,6 +383,9 @@ func (gen *Generator) GenerateMacexpand(args []Sexp) error {
 
 func (gen *Generator) GenerateShortCircuit(or bool, args []Sexp) error {
 	size := len(args)
+	if size == 0 {
+		return WrongNargs
+	}
 
 	subgen := gen.NewSubGenerator()
 	subgen.scopes = gen.scopes
